@@ -271,3 +271,37 @@ func parseInt64ForHarness(s string) (int64, bool) {
 	_, v, err := parseInt64(s)
 	return v, err == nil
 }
+
+// VerifC02OverwriteCreated: put-put / put-get on a path whose intermediate node was auto-created by an earlier
+// assignment in the same expression: `.N.M = v | .N = STR` must leave .N reading as the string STR, typed !!str,
+// also when STR looks like another type.
+func VerifC02OverwriteCreated() {
+	n := verifStrN("n", 1, "ad") // existing (a) or new key
+	verifAssume(!verifEqStr(n, "c") && !verifEqStr(n, "s"))
+	kind := verifChoice("second", 2) // intermediate created as a map (.N.M) or as a sequence (.N[1])
+	str := []string{"5", "true", "null", "x", "1.5", "~"}[verifChoice("str", 6)]
+	text := "(.KEY1.m = 1) | (.KEY1 = \"PLACEHOLDER\")"
+	if kind == 1 {
+		text = "(.KEY1[1] = 1) | (.KEY1 = \"PLACEHOLDER\")"
+		verifAssume(!verifEqStr(n, "a"))
+	}
+	doc := c02Doc("b", "0", "1", "2", "3")
+	e := vParse(text)
+	vSubst(e, "KEY1", "", n)
+	vSubst(e, "PLACEHOLDER", "", str)
+	_, err := vEval(e, doc)
+	verifAssert(err == nil, "C02/overwrite-created-error")
+	if err != nil {
+		return
+	}
+	rd := vParse(".KEY1")
+	vSubst(rd, "KEY1", "", n)
+	got, ok := c02ReadDump(rd, doc)
+	verifObserve("got", got)
+	verifAssert(ok && verifEqStr(got, "<!!str "+str+">"), "C02/put-get-after-overwriting-auto-created-node")
+	tg := vParse(".KEY1 | tag")
+	vSubst(tg, "KEY1", "", n)
+	tag, ok2 := c02ReadDump(tg, doc)
+	verifAssert(ok2 && verifEqStr(tag, "<!!str !!str>"), "C02/tag-after-overwriting-auto-created-node")
+	verifCover("C02/overwrite/end")
+}
